@@ -54,12 +54,35 @@ func clRefreshCopies(c *Ctx) {
 	unsafeSrc := []*ssa.Function{p.Func("skiplist", "Node", "Item"), p.Func("skiplist", "Iterator", "Get"),
 		p.Func("skiplist", "Iterator", "GetNode"), p.Func("nitro", "Iterator", "GetNode"), p.Func("nitro", "Item", "Bytes")}
 	closes := p.CallSites(fn, slClose)
+	fIterF := p.Field("nitro", "Iterator", "iter")
+	replaced := p.storesTo(fn, fIterF)
 	if len(closes) == 0 {
+		// replacing the cursor without closing the old one leaks its barrier session
+		c.Check(len(replaced) == 0, fn, nil, "the old cursor is closed before it is replaced", "Refresh drops the old cursor without closing it: its barrier session is never released and blocks reclamation for ever")
 		c.Note("nitro.Iterator.Refresh does not close its cursor; C09.c vacuous")
-		c.Check(true, fn, nil, "refresh keeps the old session (nothing to copy)", "")
 		return
 	}
 	cl := closes[0]
+	for _, st := range replaced {
+		c.Check(fi.Dominates(cl, st), fn, st, "the old cursor is closed before it is replaced", "Refresh drops the old cursor without closing it: its barrier session is never released")
+	}
+	// a closed cursor is not used again: every later call on it.iter reads the field after it was re-assigned
+	for _, in := range fi.Instrs {
+		cc := callOf(in)
+		if cc == nil || in == cl || !fi.Reaches(cl, in) || len(cc.Args) == 0 {
+			continue
+		}
+		if f, _ := loadedField(cc.Args[0]); f != fIterF {
+			continue
+		}
+		fresh := false
+		for _, st := range replaced {
+			if fi.Dominates(cl, st) && fi.Dominates(st, in) {
+				fresh = true
+			}
+		}
+		c.Check(fresh, fn, in, "after closing its cursor Refresh continues with a newly opened one", "the closed cursor (no barrier session any more) is used to walk the store: nodes under it can be freed")
+	}
 	for _, sk := range p.CallSites(fn, slSeek, slSeekCmp) {
 		if !fi.Reaches(cl, sk) {
 			continue
